@@ -30,8 +30,14 @@ Inductive hev :=
     (* ref sends a transport message under the keys it derived in exchange xid *)
 | HTun (xid : N) (p : kid) (e : kid) (ts idx : N)
     (* a packet for peer p enters the TUN; xid, e, ts, idx: if the device initiates *)
-| HKick (xid : N) (p : kid) (e : kid) (ts idx : N).
+| HKick (xid : N) (p : kid) (e : kid) (ts idx : N)
     (* hook: SendHandshakeInitiation(false) for peer p *)
+| HRestart
+    (* Device.Down(); Device.Up() *)
+| HCookie (keykid : kid) (msgx adx : N) (garbage : bool) (cid : N).
+    (* a cookie reply addressed to the sender index of the device's handshake message of exchange msgx,
+       sealed under Hash("cookie--" || pub(keykid)) with the MAC1 of the device's message of exchange adx
+       as associated data (0: unrelated bytes), or not sealed at all (garbage); cid names the cookie *)
 
 Record obs := {
   o_outs : list (list N);      (* descriptors of what the device emitted, in order *)
@@ -48,8 +54,9 @@ Record case := {
 }.
 
 (* ---------------------------------------------------------------- descriptors
-   init:      [1; to; len; sender; mac1 key owner; mac2 zero; opened by]
-   response:  [2; to; len; sender; receiver; mac1 key owner; mac2 zero]
+   init:      [1; to; len; sender; mac1 key owner; mac2 class; opened by]
+   response:  [2; to; len; sender; receiver; mac1 key owner; mac2 class]
+   mac2 class: 1 = all zero, 2 = Mac(cookie, msg[:smac2]) under a cookie some party issued, 0 = anything else
    transport: [4; to; receiver; exchange whose ref keys open it; keepalive]
    tun write: [5; from] *)
 Definition b2n (b : bool) : N := if b then 1 else 0.
@@ -60,7 +67,13 @@ Fixpoint first_kid (f : kid -> bool) (l : list kid) : N :=
 
 Record rsess := { rs_xid : N; rs_send : term; rs_recv : term; rs_ridx : N; rs_peer : kid }.
 Record dinit := { di_xid : N; di_to : kid; di_msg : init_msg }.
-Record world := { w_dev : dev; w_sess : list rsess; w_dinits : list dinit }.
+Record world := { w_dev : dev; w_sess : list rsess; w_dinits : list dinit;
+                  w_dmsgs : list (N * N * term);   (* device handshake messages: exchange, sender index, MAC1 *)
+                  w_cookies : list term }.         (* cookies issued by ref parties *)
+
+Definition mac2_class (cookies : list term) (body m1 m2 : term) : N :=
+  if is_zero m2 then 1
+  else if existsb (fun c => teqb m2 (TMac c (TPair body m1))) cookies then 2 else 0.
 
 Fixpoint opener (key : term) (l : list rsess) : N :=
   match l with [] => 0 | s :: r => if teqb (rs_recv s) key then rs_xid s else opener key r end.
@@ -70,13 +83,13 @@ Definition describe (dv : kid) (parties : list kid) (w : world) (o : out) : list
   | OInit to m =>
       [1; k2n to; MessageInitiationSize; i_sender m;
        first_kid (fun k => Paper.mac1_valid (TPub k) (init_body m) (i_mac1 m)) (dv :: parties);
-       b2n (is_zero (i_mac2 m));
+       mac2_class (w_cookies w) (init_body m) (i_mac1 m) (i_mac2 m);
        first_kid (fun k => match Paper.consume_initiation k (fun pk => teqb pk (TPub dv)) m with
                            | Some _ => true | None => false end) parties]
   | OResp to m =>
       [2; k2n to; MessageResponseSize; r_sender m; r_receiver m;
        first_kid (fun k => Paper.mac1_valid (TPub k) (resp_body m) (r_mac1 m)) (dv :: parties);
-       b2n (is_zero (r_mac2 m))]
+       mac2_class (w_cookies w) (resp_body m) (r_mac1 m) (r_mac2 m)]
   | OTransport to receiver key ka => [4; k2n to; receiver; opener key (w_sess w); b2n ka]
   | OTunWrite from => [5; k2n from]
   end.
@@ -92,6 +105,14 @@ Definition peer_state (p : peer) : list N :=
 
 Definition remember_inits (xid : N) (outs : list out) (l : list dinit) : list dinit :=
   fold_left (fun acc o => match o with OInit to m => acc ++ [{| di_xid := xid; di_to := to; di_msg := m |}] | _ => acc end) outs l.
+
+Definition remember_msgs (xid : N) (outs : list out) (l : list (N * N * term)) : list (N * N * term) :=
+  fold_left (fun acc o => match o with
+                          | OInit _ m => acc ++ [(xid, i_sender m, i_mac1 m)]
+                          | OResp _ m => acc ++ [(xid, r_sender m, r_mac1 m)]
+                          | _ => acc end) outs l.
+Fixpoint find_dmsg (l : list (N * N * term)) (x : N) : option (N * term) :=
+  match l with [] => None | (i, s, m) :: r => if i =? x then Some (s, m) else find_dmsg r x end.
 
 Definition set_mac1 (m : init_msg) (t : term) : init_msg :=
   {| i_type := i_type m; i_sender := i_sender m; i_eph := i_eph m; i_static := i_static m;
@@ -125,7 +146,8 @@ Definition wstep (w : world) (h : hev) : world * list out * N :=
                 end
             | _ => acc
             end) outs (w_sess w, 0) in
-        ({| w_dev := d'; w_sess := sess; w_dinits := w_dinits w |}, outs, verdict)
+        ({| w_dev := d'; w_sess := sess; w_dinits := w_dinits w;
+            w_dmsgs := remember_msgs xid outs (w_dmsgs w); w_cookies := w_cookies w |}, outs, verdict)
       end
   | HRResp xid ans r pskid e idx =>
       match find_dinit (w_dinits w) ans with
@@ -147,7 +169,7 @@ Definition wstep (w : world) (h : hev) : world * list out * N :=
             let sess := w_sess w ++ [{| rs_xid := xid; rs_send := fst (Paper.responder_keys s2);
                                         rs_recv := snd (Paper.responder_keys s2); rs_ridx := i_sender m; rs_peer := r |}] in
             let '(d', outs) := dev_step (w_dev w) (EResp rm) in
-            ({| w_dev := d'; w_sess := sess; w_dinits := w_dinits w |}, outs, verdict)
+            ({| w_dev := d'; w_sess := sess; w_dinits := w_dinits w; w_dmsgs := w_dmsgs w; w_cookies := w_cookies w |}, outs, verdict)
           end
         end
       end
@@ -157,22 +179,37 @@ Definition wstep (w : world) (h : hev) : world * list out * N :=
       | Some s =>
         let '(d', outs) := dev_step (w_dev w)
                              (EData (rs_ridx s) ctr (Paper.transport (rs_send s) ctr (if ka then TEmpty else TJunk 1))) in
-        ({| w_dev := d'; w_sess := w_sess w; w_dinits := w_dinits w |}, outs, 0)
+        ({| w_dev := d'; w_sess := w_sess w; w_dinits := w_dinits w; w_dmsgs := w_dmsgs w; w_cookies := w_cookies w |}, outs, 0)
       end
   | HTun xid p e ts idx =>
       let '(d', outs) := dev_step (w_dev w) (ETun p e ts idx) in
-      ({| w_dev := d'; w_sess := w_sess w; w_dinits := remember_inits xid outs (w_dinits w) |}, outs, 0)
+      ({| w_dev := d'; w_sess := w_sess w; w_dinits := remember_inits xid outs (w_dinits w);
+          w_dmsgs := remember_msgs xid outs (w_dmsgs w); w_cookies := w_cookies w |}, outs, 0)
   | HKick xid p e ts idx =>
       let '(d', outs) := dev_step (w_dev w) (EKick p e ts idx) in
-      ({| w_dev := d'; w_sess := w_sess w; w_dinits := remember_inits xid outs (w_dinits w) |}, outs, 0)
+      ({| w_dev := d'; w_sess := w_sess w; w_dinits := remember_inits xid outs (w_dinits w);
+          w_dmsgs := remember_msgs xid outs (w_dmsgs w); w_cookies := w_cookies w |}, outs, 0)
+  | HRestart =>
+      let '(d', outs) := dev_step (w_dev w) ERestart in
+      ({| w_dev := d'; w_sess := w_sess w; w_dinits := w_dinits w; w_dmsgs := w_dmsgs w; w_cookies := w_cookies w |}, outs, 0)
+  | HCookie keykid msgx adx garbage cid =>
+      match find_dmsg (w_dmsgs w) msgx with
+      | None => (w, [], 0)
+      | Some (sidx, _) =>
+        let ad := match find_dmsg (w_dmsgs w) adx with Some (_, m1) => m1 | None => TJunk 9 end in
+        let ck := TC (100 + N.to_nat cid) in
+        let c := if garbage then TJunk 8 else TAead (cookie_key (TPub keykid)) cid ck ad in
+        let '(d', outs) := dev_step (w_dev w) (ECookie sidx cid c) in
+        ({| w_dev := d'; w_sess := w_sess w; w_dinits := w_dinits w; w_dmsgs := w_dmsgs w;
+            w_cookies := ck :: w_cookies w |}, outs, 0)
+      end
   end.
 
 Definition init_world (c : case) : world :=
   {| w_dev := {| d_static := c_dev c;
-                 d_peers := map (fun kp => {| p_id := fst kp;
-                                              p_hs := new_handshake (Some (c_dev c)) (fst kp) (psk_term (snd kp));
-                                              p_kp := no_slots; p_staged := 0 |}) (c_conf c) |};
-     w_sess := []; w_dinits := [] |}.
+                 d_peers := map (fun kp => new_peer (fst kp) (new_handshake (Some (c_dev c)) (fst kp) (psk_term (snd kp))))
+                                (c_conf c) |};
+     w_sess := []; w_dinits := []; w_dmsgs := []; w_cookies := [] |}.
 
 Fixpoint nlist_eqb (a b : list N) : bool :=
   match a, b with
@@ -208,13 +245,15 @@ Fixpoint conf_psk (conf : list (kid * nat)) (s : kid) : option nat :=
 (* spec state, per static key: greatest timestamp of a well-formed initiation so far,
    the device initiation still open, the exchange whose keypair is the device's
    [current] / the newest keypair-deriving exchange -- all read off observations *)
-Record sp := { sp_k : kid; sp_maxts : N; sp_open : option N; sp_cur : option N; sp_last : option N }.
+Record sp := { sp_k : kid; sp_maxts : N; sp_open : option N; sp_cur : option N; sp_last : option N;
+               sp_lastmsg : N;   (* exchange of the last handshake message the device sent to this peer *)
+               sp_ck : bool }.   (* a cookie reply that is authentic BY CONSTRUCTION was delivered for this peer *)
 Record xinfo := { x_id : N; x_peer : kid; x_good : bool }.
 Record sstate := { ss_sp : list sp; ss_x : list xinfo; ss_di : list (N * kid) }.
 
 Fixpoint get_sp (l : list sp) (k : kid) : sp :=
   match l with
-  | [] => {| sp_k := k; sp_maxts := 0; sp_open := None; sp_cur := None; sp_last := None |}
+  | [] => {| sp_k := k; sp_maxts := 0; sp_open := None; sp_cur := None; sp_last := None; sp_lastmsg := 0; sp_ck := false |}
   | s :: r => if Nat.eqb (sp_k s) k then s else get_sp r k
   end.
 Definition put_sp (l : list sp) (s : sp) : list sp :=
@@ -228,14 +267,17 @@ Definition nth0 (l : list N) (i : nat) : N := nth i l 0.
 Definition is_kind (k : N) (d : list N) : bool := nth0 d 0 =? k.
 Definition oeq (a : option N) (x : N) : bool := match a with Some y => y =? x | None => false end.
 
-(* every emitted handshake message: size, MAC1 under the addressee's key, MAC2 zero,
+(* every emitted handshake message: size, MAC1 under the addressee's key, MAC2 zero unless a
+   cookie reply that is authentic by construction was delivered for that peer before ("absent a
+   cookie": a reply that does not authenticate is not a cookie),
    an initiation opens under the addressed (configured) peer's key and carries the device's key *)
-Definition hs_msg_ok (conf : list (kid * nat)) (d : list N) : bool :=
+Definition hs_msg_ok (conf : list (kid * nat)) (sps : list sp) (d : list N) : bool :=
+  let may := sp_ck (get_sp sps (N.to_nat (nth0 d 1))) in
   if is_kind 1 d then
-    (nth0 d 2 =? MessageInitiationSize) && (nth0 d 4 =? nth0 d 1) && (nth0 d 5 =? 1) && (nth0 d 6 =? nth0 d 1) &&
+    (nth0 d 2 =? MessageInitiationSize) && (nth0 d 4 =? nth0 d 1) && ((nth0 d 5 =? 1) || may) && (nth0 d 6 =? nth0 d 1) &&
     (match conf_psk conf (N.to_nat (nth0 d 1)) with Some _ => true | None => false end)
   else if is_kind 2 d then
-    (nth0 d 2 =? MessageResponseSize) && (nth0 d 5 =? nth0 d 1) && (nth0 d 6 =? 1)
+    (nth0 d 2 =? MessageResponseSize) && (nth0 d 5 =? nth0 d 1) && ((nth0 d 6 =? 1) || may)
   else true.
 
 (* transports go only to the peer of a good exchange and open under its keys *)
@@ -252,7 +294,7 @@ Definition count_kind (k : N) (l : list (list N)) : nat := length (filter (is_ki
 
 Definition sstep (dv : kid) (conf : list (kid * nat)) (s : sstate) (h : hev) (o : obs) : sstate * bool :=
   let outs := o_outs o in
-  let base := forallb (hs_msg_ok conf) outs in
+  let base := forallb (hs_msg_ok conf (ss_sp s)) outs in
   match h with
   | HRInit xid sk r mk e idx ts pskid _ _ =>
       let wellformed := match conf_psk conf sk with Some _ => true | None => false end
@@ -274,7 +316,8 @@ Definition sstep (dv : kid) (conf : list (kid * nat)) (s : sstate) (h : hev) (o 
         no_kind 4 outs && no_kind 5 outs && no_kind 1 outs in
       let q' := {| sp_k := sk; sp_maxts := if wellformed && fresh then ts else sp_maxts q;
                    sp_open := if responded then None else sp_open q; sp_cur := sp_cur q;
-                   sp_last := if responded then Some xid else sp_last q |} in
+                   sp_last := if responded then Some xid else sp_last q;
+                   sp_lastmsg := if responded then xid else sp_lastmsg q; sp_ck := sp_ck q |} in
       ({| ss_sp := put_sp (ss_sp s) q'; ss_x := {| x_id := xid; x_peer := sk; x_good := good |} :: ss_x s;
           ss_di := ss_di s |}, ok)
   | HRResp xid ans r pskid e idx =>
@@ -296,7 +339,8 @@ Definition sstep (dv : kid) (conf : list (kid * nat)) (s : sstate) (h : hev) (o 
           no_kind 1 outs && no_kind 2 outs && no_kind 5 outs in
         let q' := {| sp_k := p; sp_maxts := sp_maxts q; sp_open := if accepted then None else sp_open q;
                      sp_cur := if accepted then Some xid else sp_cur q;
-                     sp_last := if accepted then Some xid else sp_last q |} in
+                     sp_last := if accepted then Some xid else sp_last q;
+                     sp_lastmsg := sp_lastmsg q; sp_ck := sp_ck q |} in
         ({| ss_sp := put_sp (ss_sp s) q'; ss_x := {| x_id := xid; x_peer := p; x_good := good |} :: ss_x s;
             ss_di := ss_di s |}, ok)
       end
@@ -316,7 +360,8 @@ Definition sstep (dv : kid) (conf : list (kid * nat)) (s : sstate) (h : hev) (o 
           (if x_good xi then true else no_kind 4 outs) &&
           no_kind 2 outs in
         let q' := {| sp_k := sp_k q; sp_maxts := sp_maxts q; sp_open := sp_open q;
-                     sp_cur := if wrote && oeq (sp_last q) xid then Some xid else sp_cur q; sp_last := sp_last q |} in
+                     sp_cur := if wrote && oeq (sp_last q) xid then Some xid else sp_cur q; sp_last := sp_last q;
+                     sp_lastmsg := sp_lastmsg q; sp_ck := sp_ck q |} in
         ({| ss_sp := put_sp (ss_sp s) q'; ss_x := ss_x s; ss_di := ss_di s |}, ok)
       end
   | HTun xid p e ts idx | HKick xid p e ts idx =>
@@ -337,9 +382,32 @@ Definition sstep (dv : kid) (conf : list (kid * nat)) (s : sstate) (h : hev) (o 
            end
          else initiated && no_kind 4 outs) in
       let q' := {| sp_k := p; sp_maxts := sp_maxts q; sp_open := if initiated then Some xid else sp_open q;
-                   sp_cur := sp_cur q; sp_last := sp_last q |} in
+                   sp_cur := sp_cur q; sp_last := sp_last q;
+                   sp_lastmsg := if initiated then xid else sp_lastmsg q; sp_ck := sp_ck q |} in
       ({| ss_sp := put_sp (ss_sp s) q'; ss_x := ss_x s;
           ss_di := if initiated then (xid, p) :: ss_di s else ss_di s |}, ok)
+  | HRestart =>
+      (* every peer stopped and started: keypairs and open handshakes are gone, nothing is sent;
+         the configuration (and the greatest timestamp) stays *)
+      ({| ss_sp := map (fun q => {| sp_k := sp_k q; sp_maxts := sp_maxts q; sp_open := None; sp_cur := None;
+                                    sp_last := None; sp_lastmsg := sp_lastmsg q; sp_ck := sp_ck q |}) (ss_sp s);
+          ss_x := ss_x s; ss_di := ss_di s |},
+       match outs with [] => true | _ => false end)
+  | HCookie keykid msgx adx garbage cid =>
+      let peer := match get_di (ss_di s) msgx with
+                  | Some p => Some p
+                  | None => match get_x (ss_x s) msgx with Some xi => Some (x_peer xi) | None => None end
+                  end in
+      match peer with
+      | None => (s, false)
+      | Some p =>
+        let q := get_sp (ss_sp s) p in
+        let authentic := negb garbage && Nat.eqb keykid p && (adx =? sp_lastmsg q) && negb (adx =? 0) in
+        let q' := {| sp_k := p; sp_maxts := sp_maxts q; sp_open := sp_open q; sp_cur := sp_cur q; sp_last := sp_last q;
+                     sp_lastmsg := sp_lastmsg q; sp_ck := sp_ck q || authentic |} in
+        ({| ss_sp := put_sp (ss_sp s) q'; ss_x := ss_x s; ss_di := ss_di s |},
+         match outs with [] => true | _ => false end)   (* a cookie reply is never answered *)
+      end
   end.
 
 (* no session with a stranger, on the observed slots: a peer has a keypair only
@@ -368,21 +436,22 @@ Definition holdsb (c : case) : bool :=
 
 (* ---------------------------------------------------------------- wire layout
    raw bytes of every device-emitted handshake message against what ref parsed:
-   fields = [type; sender; receiver (0 for initiations)] ++ ephemeral bytes *)
+   fields = [type; sender; receiver (0 for initiations); mac2 class] ++ ephemeral bytes;
+   the MAC2 field decoded at offset size-16 is all zero exactly when ref classified it as zero *)
 Definition raw_ok (r : list N * list N) : bool :=
   let '(bytes, fields) := r in
-  let eph := skipn 3 fields in
+  let eph := skipn 4 fields in
   match nth0 bytes 0 with
   | 1 => match decode_init bytes with
          | Some m => (wi_type m =? MessageInitiationType) && (wi_type m =? nth0 fields 0) &&
                      (wi_sender m =? nth0 fields 1) && nlist_eqb (wi_eph m) eph &&
-                     all_zero (wi_mac2 m) && nlist_eqb (encode_init m) bytes
+                     Bool.eqb (all_zero (wi_mac2 m)) (nth0 fields 3 =? 1) && nlist_eqb (encode_init m) bytes
          | None => false
          end
   | 2 => match decode_resp bytes with
          | Some m => (wr_type m =? MessageResponseType) && (wr_type m =? nth0 fields 0) &&
                      (wr_sender m =? nth0 fields 1) && (wr_receiver m =? nth0 fields 2) &&
-                     nlist_eqb (wr_eph m) eph && all_zero (wr_mac2 m) && nlist_eqb (encode_resp m) bytes
+                     nlist_eqb (wr_eph m) eph && Bool.eqb (all_zero (wr_mac2 m)) (nth0 fields 3 =? 1) && nlist_eqb (encode_resp m) bytes
          | None => false
          end
   | _ => false
@@ -408,7 +477,7 @@ Fixpoint check_cases (ks : list case) (idx : N) : list (N * N * N) :=
   end.
 
 (* statistics: [initiations accepted; initiations refused; responses accepted; responses refused;
-                data accepted; data refused; device initiations; completed by ref; refused by ref] *)
+                data accepted; data refused; device initiations; completed by ref; refused by ref; restarts; cookie replies] *)
 Fixpoint bump (l : list N) (i : nat) : list N :=
   match l, i with
   | [], _ => []
@@ -424,11 +493,13 @@ Definition stat_step (st : list N) (ho : hev * obs) : list N :=
             | HRResp _ _ _ _ _ _ => bump st (if no_kind 4 outs then 3 else 2)
             | HRData _ _ ka => if ka then st else bump st (if no_kind 5 outs then 5 else 4)
             | HTun _ _ _ _ _ | HKick _ _ _ _ _ => if no_kind 1 outs then st else bump st 6
+            | HRestart => bump st 9
+            | HCookie _ _ _ _ _ => bump st 10
             end in
   match o_ref o with 1 => bump st 7 | 2 => bump st 8 | _ => st end.
 
 Definition stats (ks : list case) : list N :=
-  fold_left (fun st k => fold_left stat_step (c_steps k) st) ks [0;0;0;0;0;0;0;0;0].
+  fold_left (fun st k => fold_left stat_step (c_steps k) st) ks [0;0;0;0;0;0;0;0;0;0;0].
 
 (* ---------------------------------------------------------------- case-file glue *)
 Definition mk_obs (outs : list (list N)) (rf : N) (peers : list (list N))
@@ -445,6 +516,8 @@ Definition rresp (xid ans r pskid e idx : N) : hev := HRResp xid ans (n2k r) (N.
 Definition rdata (xid ctr ka : N) : hev := HRData xid ctr (negb (ka =? 0)).
 Definition tun (xid p e ts idx : N) : hev := HTun xid (n2k p) (n2k e) ts idx.
 Definition kick (xid p e ts idx : N) : hev := HKick xid (n2k p) (n2k e) ts idx.
+Definition restart : hev := HRestart.
+Definition cookie (keykid msgx adx garbage cid : N) : hev := HCookie (n2k keykid) msgx adx (negb (garbage =? 0)) cid.
 Definition mk_case (dv : N) (conf : list (N * N)) (parties : list N) (steps : list (hev * obs)) : case :=
   {| c_dev := n2k dv; c_conf := map (fun p => (n2k (fst p), N.to_nat (snd p))) conf;
      c_parties := map n2k parties; c_steps := steps |}.
